@@ -365,6 +365,8 @@ val core_safename : char list -> char list
 
 val list_existsb_eq : char list -> char list list -> bool
 
+val nodupb : char list list -> bool
+
 type sexp =
 | SAtom of char list
 | SStr of char list
@@ -560,6 +562,8 @@ type ctc = { c_name : char list; c_ast : node }
 type fm = { root : feature; ctcs : ctc list }
 
 val mk_info : char list -> finfo
+
+val leaf : char list -> feature
 
 val fsize : feature -> nat
 
@@ -853,6 +857,10 @@ and prelation =
 | PRelation of ptr * z * z * pfeature list
 
 type pfm = { proot : pfeature; pctcs : ctc list }
+
+val annotate : path -> ptr -> feature -> pfeature
+
+val annotate_fm : fm -> pfm
 
 val jt_FEATURE : char list
 
@@ -1154,6 +1162,82 @@ val uvl_read_ctc : ucst -> node result
 
 val uvl_read_cst : udoc -> pfm result
 
+val afm_operator : astop -> char list option
+
+val afm_operator_of_keyword : char list -> astop option
+
+type aitem =
+| ISingle of bool * char list
+| IGroup of char list * char list * char list list
+
+type arelspec = { rs_parent : char list; rs_items : aitem list }
+
+type avalue =
+| AvInt of char list
+| AvText of char list
+
+type adomain =
+| ADiscrete of avalue list
+| ARange of (char list * char list) list
+
+type aattrspec = { at_feature : char list; at_name : char list;
+                   at_domain : adomain; at_default : avalue; at_null : 
+                   avalue }
+
+type aexpr =
+| EVar of char list
+| ENum of char list
+| EBin of char list * aexpr * aexpr
+| ENot of aexpr
+| EParen of aexpr
+
+type actc =
+| CSimple of aexpr * char list
+| CBrackets of char list * (aexpr * char list) list
+
+type adoc = { ad_rels : arelspec list; ad_attrs : aattrspec list option;
+              ad_ctcs : actc list option }
+
+val afm_item : relation -> aitem option
+
+val afm_relspecs : feature -> arelspec list
+
+val afm_value : aval -> avalue result
+
+val afm_attrspec : char list -> attr -> aattrspec result
+
+val afm_expr : node -> aexpr result
+
+val afm_render_expr : aexpr -> char list
+
+val afm_cst : fm -> adoc result
+
+val afm_render_item : aitem -> char list
+
+val afm_render_value : avalue -> char list
+
+val afm_render : adoc -> char list
+
+val afm_write : fm -> char list result
+
+val afm_to_int : char list -> z result
+
+val add_rels : char list -> relation list -> feature -> feature option
+
+val add_attr : char list -> attr -> feature -> feature option
+
+val item_relations : aitem list -> relation list result
+
+val item_names : aitem list -> char list list
+
+val fresh_names : char list list -> feature -> bool
+
+val afm_value_aval : avalue -> aval result
+
+val afm_read_expr : char list -> aexpr -> node result
+
+val afm_read_cst : adoc -> pfm result
+
 val metric_methods : char list list
 
 type mval =
@@ -1305,6 +1389,30 @@ val d_ucst : sexp -> ucst option
 val e_udoc : udoc -> sexp
 
 val d_udoc : sexp -> udoc option
+
+val e_aitem : aitem -> sexp
+
+val d_aitem : sexp -> aitem option
+
+val e_avalue : avalue -> sexp
+
+val d_avalue : sexp -> avalue option
+
+val e_adomain : adomain -> sexp
+
+val d_adomain : sexp -> adomain option
+
+val e_aexpr : aexpr -> sexp
+
+val d_aexpr : sexp -> aexpr option
+
+val e_actc : actc -> sexp
+
+val d_actc : sexp -> actc option
+
+val e_adoc : adoc -> sexp
+
+val d_adoc : sexp -> adoc option
 
 val e_names : feature list -> sexp
 
